@@ -11,9 +11,13 @@
 (*   AbortiveClose = TRUE : close() resets the connection (e.g. SO_LINGER on, 0 s): the part of the bytes   *)
 (*                          in flight that had not reached the peer's kernel is discarded -- a second      *)
 (*                          regression witness                                                          *)
+(* The application may also disable the connection while a send is still blocked on a full socket:        *)
+(*   StopReportsSuccess = FALSE: the send ends with a failure report (socket closed under it), as coded     *)
+(*   StopReportsSuccess = TRUE : the send loop gives up waiting and reports success for what it did not      *)
+(*                               write -- a third witness                                                *)
 EXTENDS Naturals, Sequences, FiniteSets, TLC
 
-CONSTANTS ShortWriteIgnored, AbortiveClose, K, SZ         \* K: kernel buffer capacity; SZ selects the sequence of message sizes
+CONSTANTS ShortWriteIgnored, AbortiveClose, StopReportsSuccess, K, SZ         \* K: kernel buffer capacity; SZ selects the sequence of message sizes
 Sizes == CASE SZ = 1 -> <<1, 4, 5>> [] SZ = 2 -> <<3, 3>> [] SZ = 3 -> <<7, 1, 2>> [] OTHER -> <<2>>
 
 VARIABLES m,        \* message being sent (Len(Sizes)+1 = done)
@@ -22,11 +26,12 @@ VARIABLES m,        \* message being sent (Len(Sizes)+1 = done)
           rcv,      \* what the peer has read
           res,      \* res[i] \in {"-", "ok", "fail"}
           broken,   \* connection reset by peer
-          closed    \* closed locally after the last send
-vars == <<m, off, kb, rcv, res, broken, closed>>
+          closed,   \* closed locally after the last send
+          stop      \* disable() was called while sends were still in progress
+vars == <<m, off, kb, rcv, res, broken, closed, stop>>
 NM == Len(Sizes)
 
-Init == m = 1 /\ off = 0 /\ kb = <<>> /\ rcv = <<>> /\ res = [i \in 1..NM |-> "-"] /\ broken = FALSE /\ closed = FALSE
+Init == m = 1 /\ off = 0 /\ kb = <<>> /\ rcv = <<>> /\ res = [i \in 1..NM |-> "-"] /\ broken = FALSE /\ closed = FALSE /\ stop = FALSE
 
 Bytes(i, a, b) == [j \in 1..(b - a + 1) |-> <<i, a + j - 1>>]
 
@@ -37,26 +42,31 @@ Send(n) == /\ m <= NM /\ ~broken
            /\ IF ShortWriteIgnored \/ off + n = Sizes[m]
                 THEN /\ res' = [res EXCEPT ![m] = "ok"] /\ m' = m + 1 /\ off' = 0      \* send_data returns True
                 ELSE /\ off' = off + n /\ UNCHANGED <<m, res>>
-           /\ UNCHANGED <<rcv, broken, closed>>
+           /\ UNCHANGED <<rcv, broken, closed, stop>>
 SendFails == /\ m <= NM /\ broken
              /\ res' = [res EXCEPT ![m] = "fail"] /\ m' = m + 1 /\ off' = 0
-             /\ UNCHANGED <<kb, rcv, broken, closed>>
+             /\ UNCHANGED <<kb, rcv, broken, closed, stop>>
 Drain(n) == /\ n >= 1 /\ n <= Len(kb)
             /\ rcv' = rcv \o SubSeq(kb, 1, n) /\ kb' = SubSeq(kb, n + 1, Len(kb))
-            /\ UNCHANGED <<m, off, res, broken, closed>>
-Reset == /\ ~broken /\ ~closed /\ broken' = TRUE /\ kb' = <<>> /\ UNCHANGED <<m, off, rcv, res, closed>>
+            /\ UNCHANGED <<m, off, res, broken, closed, stop>>
+Reset == /\ ~broken /\ ~closed /\ broken' = TRUE /\ kb' = <<>> /\ UNCHANGED <<m, off, rcv, res, closed, stop>>
 (* the application closes the connection after its last send returned; n bytes in flight had reached the  *)
 (* peer's kernel, the others are still queued locally                                                    *)
 Close(n) == /\ m = NM + 1 /\ ~closed /\ ~broken /\ n <= Len(kb)
             /\ closed' = TRUE
             /\ kb' = IF AbortiveClose THEN SubSeq(kb, 1, n) ELSE kb
-            /\ UNCHANGED <<m, off, rcv, res, broken>>
+            /\ UNCHANGED <<m, off, rcv, res, broken, stop>>
 
+(* disable() while message m is still being sent; the pending and all later sends end without writing more  *)
+Stop == /\ m <= NM /\ ~stop /\ ~broken /\ stop' = TRUE /\ UNCHANGED <<m, off, kb, rcv, res, broken, closed>>
+SendStopped == /\ m <= NM /\ stop /\ ~broken
+               /\ res' = [res EXCEPT ![m] = IF StopReportsSuccess THEN "ok" ELSE "fail"] /\ m' = m + 1 /\ off' = 0
+               /\ UNCHANGED <<kb, rcv, broken, closed, stop>>
 DoSend == \E n \in 1..K : Send(n)
 DoDrain == \E n \in 1..K : Drain(n)
 DoClose == \E n \in 0..K : Close(n)
-Next == DoSend \/ SendFails \/ DoDrain \/ Reset \/ DoClose
-Spec == Init /\ [][Next]_vars /\ WF_vars(DoSend) /\ WF_vars(DoDrain) /\ WF_vars(SendFails)
+Next == DoSend \/ SendFails \/ DoDrain \/ Reset \/ DoClose \/ Stop \/ SendStopped
+Spec == Init /\ [][Next]_vars /\ WF_vars(DoSend) /\ WF_vars(DoDrain) /\ WF_vars(SendFails) /\ WF_vars(SendStopped)
 
 Stream == rcv \o kb                         \* everything the kernel accepted, in order
 OfMsg(q, i) == SelectSeq(q, LAMBDA b : b[1] = i)
@@ -64,5 +74,5 @@ OfMsg(q, i) == SelectSeq(q, LAMBDA b : b[1] = i)
 AcceptedMeansOnStream == \A i \in 1..NM : (res[i] = "ok" /\ ~broken) => OfMsg(Stream, i) = Bytes(i, 1, Sizes[i])
 InOrderNoDup == \A j, k \in 1..Len(Stream) : j < k =>
                    (Stream[j][1] < Stream[k][1] \/ (Stream[j][1] = Stream[k][1] /\ Stream[j][2] < Stream[k][2]))
-EverythingArrives == <>(broken \/ (m = NM + 1 /\ kb = <<>> /\ \A i \in 1..NM : OfMsg(rcv, i) = Bytes(i, 1, Sizes[i])))
+EverythingArrives == <>(broken \/ stop \/ (m = NM + 1 /\ kb = <<>> /\ \A i \in 1..NM : OfMsg(rcv, i) = Bytes(i, 1, Sizes[i])))
 =============================================================================
